@@ -701,7 +701,8 @@ func stateBeginArrayItemOrEmpty(s *Scanner, c byte) state {
 	if c == ']' {
 		return stateFoundArrayEnd(s)
 	}
-	if s.annotation == annotationNone {
+	if s.annotation == annotationNone && !bytes.IsBlank(c) {
+		// A blank between the brackets is not an item.
 		s.context.ArrayHasItem = true
 	}
 	return stateBeginValue(s, c)
